@@ -380,7 +380,7 @@ func crashViolation(out string) *Violation {
 		l = strings.TrimSpace(l)
 		if strings.HasPrefix(l, "simworld/goplugin") {
 			frame = l
-			if k := strings.Index(frame, "("); k > 0 {
+			if k := strings.LastIndex(frame, "("); k > 0 {
 				frame = frame[:k]
 			}
 			frame = strings.TrimPrefix(frame, "simworld/goplugin")
